@@ -7,11 +7,21 @@ import os, subprocess, hashlib
 import vlib, filegen, zckfmt
 
 THEOREMS = ["C12_write_data_success_means_all_bytes", "C12_write_data_only_prefix", "C12_writer_success_complete",
-            "C12_failure_leaves_prefix", "C12_download_chunk_complete"]
+            "C12_failure_leaves_prefix", "C12_download_chunk_complete",
+            # validation / local chunk reuse under fault schedules (Io/ScanFaults.v, Io/CopyFaults.v)
+            "C12_scan_faultfree", "C12_data_faultfree", "C12_copy_faultfree", "C12_scan_success_is_real",
+            "C12_scan_success_flags", "C12_data_success_is_real", "C12_scan_flags_sound_without_short_reads",
+            "C12_copy_any_schedule", "C12_copy_total", "C12_scan_flags_refuted_by_short_read",
+            # the scan with the proposed re-seek fix (Io/ScanReseek.v)
+            "C12_fixed_scan_faultfree", "C12_fixed_scan_success_flags", "C12_fixed_scan_flags_sound_every_schedule", "C12_reader_faults"]
 ASSUMPTIONS = [
     "POSIX read/write/lseek transfer a prefix or fail; a short read of a regular file returns at least one byte before EOF",
-    "model Io/Faults.v covers io.c (read_data, write_data, chunks_from_temp) and the call sites of the writer; reader, scan, copy and download "
-    "call sites are covered by the exhaustive single-fault runs (oracle: success implies the fault-free result), not by a theorem",
+    "model Io/Faults.v covers io.c (read_data, write_data, chunks_from_temp) and the call sites of the writer; Io/ScanFaults.v and Io/CopyFaults.v "
+    "cover validate_checksums / zck_validate_data_checksum / zck_copy_chunks / write_and_verify_chunk / zero_chunk with read, write and lseek "
+    "schedules and the contexts' error states (tied to the library by the V and C scenarios: return value, flags, target file under every single "
+    "fault); reader and download call sites are covered by the exhaustive single-fault runs (oracle: success implies the fault-free result), not by a theorem",
+    "C12_scan_flags_refuted_by_short_read is a counter-example, not a guarantee: under a read that returns fewer bytes than the file has, "
+    "validate_checksums may flag a later chunk valid from shifted bytes (its return value is still not 1)",
     "close(2) results and dprintf logging are not modelled",
 ]
 WRAP = ("-Wl,--wrap=read", "-Wl,--wrap=write", "-Wl,--wrap=lseek", "-Wl,--wrap=lseek64")
@@ -140,6 +150,29 @@ def run(res, tier, only_case=None):
         scen.append(("C", "C %s %s" % (vlib.hexs(bytes(bad)), vlib.hexs(tgt)), None, False))
         if body:
             scen.append(("D", "D %s %s %d" % (vlib.hexs(tgt), vlib.hexs(body), rng.choice([1, 4000, 16384]) if len(body) < 3000 else 16384), None, True))
+    # ---- BEGIN block added for the fault-aware scan/copy models (Io/ScanFaults.v, Io/CopyFaults.v)
+    # a file in which the bytes BEFORE a chunk's offset hash to that chunk's digest: a validity scan that loses its
+    # place (short read in the chunk before) takes them for the chunk (counter-example C12_scan_flags_refuted_by_short_read)
+    fs, hs = zckfmt.build_file([b"ab", b"b"], ht=1, cht=3)
+    scen.append(("V", "V %s" % vlib.hexs(fs[:len(hs.build())] + b"abx"), None, False))
+    x = bytes((i * 37 + 11) % 256 for i in range(707))      # fixed content: stable finding key
+    fs, hs = zckfmt.build_file([x, x[7:607]], ht=1, cht=1)        # a short read of 7 bytes in chunk 1 puts the scan on x[7:]
+    scen.append(("V", "V %s" % vlib.hexs(fs[:len(hs.build())] + x + bytes(600)), None, False))
+    no_double = set(sc[1] for sc in scen[-2:])      # single faults only: one finding key per (file, fault)
+    # copy: small source/target pair with shared, absent and duplicated chunks; target partially filled
+    pool = [rng.rbytes(k) for k in (3, 40, 7, 33000)]
+    fsrc, _ = zckfmt.build_file([pool[0], pool[1], pool[3], pool[2]], ht=1, cht=3)
+    ftgt, ht_ = zckfmt.build_file([pool[2], pool[3], b"other", pool[0], pool[1]], ht=1, cht=3)
+    hl = len(ht_.build())
+    scen.append(("C", "C %s %s" % (vlib.hexs(fsrc), vlib.hexs(ftgt[:hl])), None, True))
+    scen.append(("C", "C %s %s" % (vlib.hexs(fsrc[:-5]), vlib.hexs(ftgt[:hl + 4])), None, False))
+    model_f, scan_votes = None, []
+    try:
+        vlib.coq_make(["Extract/Extract_C12F.vo"])
+        model_f = vlib.ensure_model("C12F")
+    except vlib.BuildError as e:
+        res.violation("correspondence", "c12-corr:model-f-build", "fault-aware scan/copy model does not build: %s" % e.detail[-400:], {})
+    # ---- END block
     for kind, base, want, valid in scen:
         o, _ = vlib.run_cases_resilient(impl, [base + " -"], wd, "s0", env=env)
         d = parse(o[0])
@@ -151,11 +184,34 @@ def run(res, tier, only_case=None):
         faults = faults_for(counts, rng, tier)
         lines = [base + " " + f for f in faults]
         for _ in range(6 if tier == "quick" else 60):
+            if base in no_double:
+                break
             op = rng.choice(["read", "write"])
             n = counts[0] if op == "read" else counts[1]
             if n:
                 lines.append(base + " %s:%d:short:%d+%s:%d:%s:1" % (op, rng.randrange(1, n + 1), rng.choice([1, 5]), op, rng.randrange(1, 4), rng.choice(["eio", "short"])))
         io, _ = vlib.run_cases_resilient(impl, lines, wd, "s", env=env)
+        # ---- BEGIN block: the fault-aware models predict return value, flags (and target file) under every single fault.
+        # For the scan two proven variants exist: the code as it is (Io/ScanFaults.v) and the code with the proposed re-seek
+        # fix (Io/ScanReseek.v); the tree must agree with ONE of them on every case (decided after the loop).
+        if kind in ("V", "C") and model_f:
+            single = [(l, i) for l, i in zip(lines, io) if "+" not in l.split()[-1]]
+            mo_f, _ = vlib.run_cases(model_f, [l for l, _ in single], wd, "sf")
+            for (l, i), m in zip(single, mo_f):
+                di, dm = parse(i), parse(vlib.split_model(m)[0])
+                fault = l.split()[-1]
+                ckey = "c12-corr:%s:%s:%s" % (kind, hashlib.sha256(base.encode()).hexdigest()[:8], fault)
+                res.count("model-f:%s" % kind)
+                if "calls" not in di:
+                    continue
+                if kind == "V":
+                    scan_votes.append((ckey, l, i, m, (di.get("v"), di.get("flags")) == (dm.get("v"), dm.get("flags")),
+                                       (di.get("v"), di.get("flags")) == (dm.get("vr"), dm.get("flagsr"))))
+                elif any(di.get(k) != dm.get(k) for k in ("k", "flags", "tgt")):
+                    res.violation("correspondence", ckey, "fault-aware copy model predicts %s, the library gives %s under %s" %
+                                  (" ".join("%s=%s" % (k, dm.get(k)) for k in ("k", "flags", "tgt")),
+                                   " ".join("%s=%s" % (k, di.get(k)) for k in ("k", "flags", "tgt")), fault), {"line": l, "impl": i[-300:], "model": m[-300:]})
+        # ---- END block
         for line, i in zip(lines, io):
             res.evaluations += 1
             di = parse(i)
@@ -180,6 +236,19 @@ def run(res, tier, only_case=None):
                 if di.get("ok") == "0":
                     res.violation("oracle", key, "%s: a chunk is marked valid whose bytes on disk do not match (fault %s)" % ("copy" if kind == "C" else "download", fault), case)
         res.sample({"scenario": kind, "valid_input": valid, "calls": d["calls"], "faults": len(lines)})
+    # ---- BEGIN block: which scan variant does the tree implement?
+    if scan_votes:
+        as_is = all(v[4] for v in scan_votes)
+        fixed = all(v[5] for v in scan_votes)
+        res.extra["scan_model_variant"] = "as-is (Io/ScanFaults.v)" if as_is else "with re-seek fix (Io/ScanReseek.v)" if fixed else "none"
+        if not as_is and not fixed:
+            nf, nr = sum(1 for v in scan_votes if not v[4]), sum(1 for v in scan_votes if not v[5])
+            use = 4 if nf <= nr else 5
+            for v in [v for v in scan_votes if not v[use]][:5]:
+                res.violation("correspondence", v[0], "fault-aware scan model (%s variant) and the library disagree under %s: model %s.. code %s.." %
+                              ("as-is" if use == 4 else "re-seek", v[1].split()[-1], vlib.split_model(v[3])[0][:120], v[2][:120]),
+                              {"line": v[1], "impl": v[2][-300:], "model": v[3][-300:]})
+    # ---- END block
     # ------------------------------------------------------------------ tools
     tool_part(res, tier, rng, wd)
     vlib.shutil.rmtree(wd, ignore_errors=True)
